@@ -13,26 +13,28 @@ theorem compileCond_length (c : BExpr) (base t f : Nat) : (compileCond c base t 
   | lor a b iha ihb => simp [compileCond, BExpr.size, iha, ihb]
 
 mutual
-theorem compile_length : (s : Stmt) → ∀ (base next brk cont : Nat),
-    (compile s base next brk cont).length = s.size
+theorem compile_length (ent : Nat → Nat) : (s : Stmt) → ∀ (base next brk cont : Nat),
+    (compile ent s base next brk cont).length = s.size
   | .skip, _, _, _, _ => rfl
   | .seq a b, base, next, brk, cont => by
-    simp [compile, Stmt.size, compile_length a, compile_length b]
+    simp [compile, Stmt.size, compile_length ent a, compile_length ent b]
   | .assign _ _, _, _, _, _ => rfl
   | .print _, _, _, _, _ => rfl
   | .ite c t e, base, next, brk, cont => by
-    simp [compile, Stmt.size, compileCond_length, compile_length t, compile_length e]; omega
+    simp [compile, Stmt.size, compileCond_length, compile_length ent t, compile_length ent e]; omega
   | .loop c body post, base, next, brk, cont => by
-    simp [compile, Stmt.size, compileCond_length, compile_length body, compile_length post]; omega
+    simp [compile, Stmt.size, compileCond_length, compile_length ent body, compile_length ent post]; omega
   | .brk, _, _, _, _ => rfl
   | .cont, _, _, _, _ => rfl
   | .switch cs, base, next, brk, cont => by
-    simp [compile, Stmt.size, compileClauses_length cs]
-theorem compileClauses_length : (cs : Clauses) → ∀ (base next cont : Nat),
-    (compileClauses cs base next cont).length = cs.size
+    simp [compile, Stmt.size, compileClauses_length ent cs]
+  | .ret _, _, _, _, _ => rfl
+  | .call _ _ _, _, _, _, _ => rfl
+theorem compileClauses_length (ent : Nat → Nat) : (cs : Clauses) → ∀ (base next cont : Nat),
+    (compileClauses ent cs base next cont).length = cs.size
   | .nil, _, _, _ => rfl
   | .cons c body fall rest, base, next, cont => by
-    simp [compileClauses, Clauses.size, compileCond_length, compile_length body, compileClauses_length rest]; omega
+    simp [compileClauses, Clauses.size, compileCond_length, compile_length ent body, compileClauses_length ent rest]; omega
 end
 
 theorem steps_add (code : List Instr) (m n : Nat) (st : MState) :
@@ -73,10 +75,10 @@ theorem Embeds.head {code : List Instr} {i : Instr} {base : Nat} (h : Embeds cod
   simpa using this
 
 /-- conditions: the branch graph reaches `t` or `f` according to the short-circuit value, or panics -/
-theorem cond_sim (code : List Instr) (s : St) (c : BExpr) :
+theorem cond_sim (code : List Instr) (s : St) (σ : List Frame) (c : BExpr) :
     ∀ (base t f : Nat), Embeds code (compileCond c base t f) base →
-      (∀ v, c.eval s = some v → ∃ n, steps code n (.run base s) = some (.run (if v then t else f) s)) ∧
-      (c.eval s = none → ∃ n, steps code n (.run base s) = some (.panicked s)) := by
+      (∀ v, c.eval s = some v → ∃ n, steps code n (.run base s σ) = some (.run (if v then t else f) s σ)) ∧
+      (c.eval s = none → ∃ n, steps code n (.run base s σ) = some (.panicked s)) := by
   induction c with
   | cmp op a b =>
     intro base t f h
@@ -198,14 +200,15 @@ def Clauses.wf : Clauses → Bool
 end
 
 /-- where the machine is after a statement that ended with signal `sig` -/
-def target (next brk cont : Nat) : Sig → St → MState
-  | .normal, s => .run next s
-  | .brk, s => .run brk s
-  | .cont, s => .run cont s
+def target (next brk cont : Nat) (σ : List Frame) : Sig → St → MState
+  | .normal, s => .run next s σ
+  | .brk, s => .run brk s σ
+  | .cont, s => .run cont s σ
   | .panic, s => .panicked s
+  | .ret v, s => doReturn v s σ
 
-theorem simple_sig {f : Nat} {p : Stmt} {s s' : St} {sig : Sig} (hs : p.simple = true)
-    (h : exec f p s = some (sig, s')) : sig = .normal ∨ sig = .panic := by
+theorem simple_sig {fs : Funs} {f : Nat} {p : Stmt} {s s' : St} {sig : Sig} (hs : p.simple = true)
+    (h : exec fs f p s = some (sig, s')) : sig = .normal ∨ sig = .panic := by
   cases f with
   | zero => simp [exec] at h
   | succ f =>
@@ -217,56 +220,58 @@ theorem simple_sig {f : Nat} {p : Stmt} {s s' : St} {sig : Sig} (hs : p.simple =
       split at h <;> simp at h <;> simp [← h.1]
 
 /-- simulation statement for statements, at a given amount of fuel -/
-def SimStmt (code : List Instr) (fuel : Nat) : Prop :=
-  ∀ (p : Stmt) (s s' : St) (sig : Sig) (base next brk cont : Nat),
+def SimStmt (code : List Instr) (fs : Funs) (ent : Nat → Nat) (fuel : Nat) : Prop :=
+  ∀ (p : Stmt) (s s' : St) (sig : Sig) (base next brk cont : Nat) (σ : List Frame),
     p.wf = true →
-    exec fuel p s = some (sig, s') →
-    Embeds code (compile p base next brk cont) base →
-    ∃ n, steps code n (.run base s) = some (target next brk cont sig s')
+    exec fs fuel p s = some (sig, s') →
+    Embeds code (compile ent p base next brk cont) base →
+    ∃ n, steps code n (.run base s σ) = some (target next brk cont σ sig s')
 
 /-- … for the clause list of a switch entered at its first test (`break` leaves the switch) -/
-def SimClauses (code : List Instr) (fuel : Nat) : Prop :=
-  ∀ (cs : Clauses) (s s' : St) (sig : Sig) (base next cont : Nat),
+def SimClauses (code : List Instr) (fs : Funs) (ent : Nat → Nat) (fuel : Nat) : Prop :=
+  ∀ (cs : Clauses) (s s' : St) (sig : Sig) (base next cont : Nat) (σ : List Frame),
     cs.wf = true →
-    execClauses fuel cs s = some (sig, s') →
-    Embeds code (compileClauses cs base next cont) base →
-    ∃ n, steps code n (.run base s) = some (target next next cont sig s')
+    execClauses fs fuel cs s = some (sig, s') →
+    Embeds code (compileClauses ent cs base next cont) base →
+    ∃ n, steps code n (.run base s σ) = some (target next next cont σ sig s')
 
 /-- … and entered at the body of its first clause (after a `fallthrough`) -/
-def SimFall (code : List Instr) (fuel : Nat) : Prop :=
-  ∀ (cs : Clauses) (s s' : St) (sig : Sig) (base next cont : Nat),
+def SimFall (code : List Instr) (fs : Funs) (ent : Nat → Nat) (fuel : Nat) : Prop :=
+  ∀ (cs : Clauses) (s s' : St) (sig : Sig) (base next cont : Nat) (σ : List Frame),
     cs.wf = true →
-    execFall fuel cs s = some (sig, s') →
-    Embeds code (compileClauses cs base next cont) base →
-    ∃ n, steps code n (.run (cs.bodyStart base) s) = some (target next next cont sig s')
+    execFall fs fuel cs s = some (sig, s') →
+    Embeds code (compileClauses ent cs base next cont) base →
+    ∃ n, steps code n (.run (cs.bodyStart base) s σ) = some (target next next cont σ sig s')
 
 /-- the body of a selected clause, then either the exit of the switch or the next body -/
-theorem clause_body (code : List Instr) (f : Nat) (hS : SimStmt code f) (hF : SimFall code f)
+theorem clause_body (code : List Instr) (fs : Funs) (ent : Nat → Nat) (f : Nat)
+    (hS : SimStmt code fs ent f) (hF : SimFall code fs ent f)
     (c : BExpr) (body : Stmt) (fall : Bool) (rest : Clauses) (s s' : St) (sig : Sig) (base next cont : Nat)
+    (σ : List Frame)
     (hwb : body.wf = true) (hwr : rest.wf = true)
-    (hemb : Embeds code (compileClauses (.cons c body fall rest) base next cont) base)
-    (h : (match exec f body s with
-          | some (.normal, s1) => if fall then execFall f rest s1 else some (.normal, s1)
+    (hemb : Embeds code (compileClauses ent (.cons c body fall rest) base next cont) base)
+    (h : (match exec fs f body s with
+          | some (.normal, s1) => if fall then execFall fs f rest s1 else some (.normal, s1)
           | r => r) = some (sig, s')) :
-    ∃ n, steps code n (.run (base + c.size) s) = some (target next next cont sig s') := by
+    ∃ n, steps code n (.run (base + c.size) s σ) = some (target next next cont σ sig s') := by
   simp only [compileClauses] at hemb
   have hbody := hemb.left.right
   have hrest := hemb.right
   rw [compileCond_length] at hbody
-  rw [List.length_append, compileCond_length, compile_length, ← Nat.add_assoc] at hrest
-  cases hx : exec f body s with
+  rw [List.length_append, compileCond_length, compile_length ent, ← Nat.add_assoc] at hrest
+  cases hx : exec fs f body s with
   | none => simp [hx] at h
   | some r =>
     obtain ⟨sg, s1⟩ := r
     obtain ⟨n1, hn1⟩ := hS body s s1 sg (base + c.size)
-      (if fall then rest.bodyStart (base + c.size + body.size) else next) next cont hwb hx hbody
+      (if fall then rest.bodyStart (base + c.size + body.size) else next) next cont σ hwb hx hbody
     cases sg with
     | normal =>
       simp only [hx] at h
       cases fall with
       | true =>
         simp only [if_true] at h hn1
-        obtain ⟨n2, hn2⟩ := hF rest s1 s' sig (base + c.size + body.size) next cont hwr h hrest
+        obtain ⟨n2, hn2⟩ := hF rest s1 s' sig (base + c.size + body.size) next cont σ hwr h hrest
         exact ⟨n1 + n2, steps_trans (by simpa [target] using hn1) hn2⟩
       | false =>
         simp only [Bool.false_eq_true, if_false, Option.some.injEq, Prod.mk.injEq] at h hn1
@@ -284,22 +289,45 @@ theorem clause_body (code : List Instr) (f : Nat) (hS : SimStmt code f) (hF : Si
       simp only [hx, Option.some.injEq, Prod.mk.injEq] at h
       obtain ⟨rfl, rfl⟩ := h
       exact ⟨n1, by simpa [target] using hn1⟩
+    | ret v =>
+      simp only [hx, Option.some.injEq, Prod.mk.injEq] at h
+      obtain ⟨rfl, rfl⟩ := h
+      exact ⟨n1, by simpa [target] using hn1⟩
+
+theorem callResult_none (s : St) (x : Nat) : callResult s x none = none := rfl
+theorem callResult_ret (s s1 : St) (x : Nat) (v : Val) :
+    callResult s x (some (.ret v, s1)) = some (.normal, { vars := (s.set x v).vars, out := s1.out }) := rfl
+theorem callResult_panic (s s1 : St) (x : Nat) : callResult s x (some (.panic, s1)) = some (.panic, s1) := rfl
+theorem callResult_normal (s s1 : St) (x : Nat) :
+    callResult s x (some (.normal, s1)) = some (.normal, { vars := (s.set x 0).vars, out := s1.out }) := rfl
+theorem callResult_brk (s s1 : St) (x : Nat) :
+    callResult s x (some (.brk, s1)) = some (.normal, { vars := (s.set x 0).vars, out := s1.out }) := rfl
+theorem callResult_cont (s s1 : St) (x : Nat) :
+    callResult s x (some (.cont, s1)) = some (.normal, { vars := (s.set x 0).vars, out := s1.out }) := rfl
+
+/-- every declared function's graph (body followed by `return 0`) sits in `code` at its entry -/
+def FunsEmbed (code : List Instr) (fs : Funs) (ent : Nat → Nat) : Prop :=
+  ∀ (g : Nat) (body : Stmt), lookupFn fs g = some body → Embeds code (compileFn ent body (ent g)) (ent g)
+
+/-- every function body is well formed -/
+def Funs.wf (fs : Funs) : Prop := ∀ (g : Nat) (body : Stmt), lookupFn fs g = some body → body.wf = true
 
 /-- **simulation**: every big-step execution is reproduced step by step by the compiled graph -/
-theorem sim_all (code : List Instr) : ∀ (fuel : Nat), SimStmt code fuel ∧ SimClauses code fuel ∧ SimFall code fuel := by
+theorem sim_all (code : List Instr) (fs : Funs) (ent : Nat → Nat) (hfe : FunsEmbed code fs ent) (hfw : Funs.wf fs) :
+    ∀ (fuel : Nat), SimStmt code fs ent fuel ∧ SimClauses code fs ent fuel ∧ SimFall code fs ent fuel := by
   intro fuel
   induction fuel with
   | zero =>
     refine ⟨?_, ?_, ?_⟩
-    · intro p s s' sig base next brk cont _ h; simp [exec] at h
-    · intro cs s s' sig base next cont _ h; simp [execClauses] at h
-    · intro cs s s' sig base next cont _ h; simp [execFall] at h
+    · intro p s s' sig base next brk cont σ _ h; simp [exec] at h
+    · intro cs s s' sig base next cont σ _ h; simp [execClauses] at h
+    · intro cs s s' sig base next cont σ _ h; simp [execFall] at h
   | succ f ihall =>
     obtain ⟨ih, ihC, ihF⟩ := ihall
     refine ⟨?_, ?_, ?_⟩
     rotate_left
     · -- clauses entered at the first test
-      intro cs s s' sig base next cont hwf h hemb
+      intro cs s s' sig base next cont σ hwf h hemb
       cases cs with
       | nil =>
         simp only [execClauses, Option.some.injEq, Prod.mk.injEq] at h
@@ -312,8 +340,8 @@ theorem sim_all (code : List Instr) : ∀ (fuel : Nat), SimStmt code fuel ∧ Si
         simp only [compileClauses] at hemb
         have hcnd := hemb.left.left
         have hrest := hemb.right
-        rw [List.length_append, compileCond_length, compile_length, ← Nat.add_assoc] at hrest
-        obtain ⟨c1, c2⟩ := cond_sim code s c base (base + c.size) (base + c.size + body.size) hcnd
+        rw [List.length_append, compileCond_length, compile_length ent, ← Nat.add_assoc] at hrest
+        obtain ⟨c1, c2⟩ := cond_sim code s σ c base (base + c.size) (base + c.size + body.size) hcnd
         simp only [execClauses] at h
         cases hc : c.eval s with
         | none =>
@@ -325,14 +353,14 @@ theorem sim_all (code : List Instr) : ∀ (fuel : Nat), SimStmt code fuel ∧ Si
           cases v with
           | false =>
             simp only [hc] at h
-            obtain ⟨n2, hn2⟩ := ihC rest s s' sig (base + c.size + body.size) next cont hwf.2 h hrest
+            obtain ⟨n2, hn2⟩ := ihC rest s s' sig (base + c.size + body.size) next cont σ hwf.2 h hrest
             exact ⟨n1 + n2, steps_trans (by simpa using hn1) hn2⟩
           | true =>
             simp only [hc] at h
-            obtain ⟨n2, hn2⟩ := clause_body code f ih ihF c body fall rest s s' sig base next cont hwf.1 hwf.2 hemb0 h
+            obtain ⟨n2, hn2⟩ := clause_body code fs ent f ih ihF c body fall rest s s' sig base next cont σ hwf.1 hwf.2 hemb0 h
             exact ⟨n1 + n2, steps_trans (by simpa using hn1) hn2⟩
     · -- clauses entered at the first body (fallthrough)
-      intro cs s s' sig base next cont hwf h hemb
+      intro cs s s' sig base next cont σ hwf h hemb
       cases cs with
       | nil =>
         simp only [execFall, Option.some.injEq, Prod.mk.injEq] at h
@@ -343,9 +371,9 @@ theorem sim_all (code : List Instr) : ∀ (fuel : Nat), SimStmt code fuel ∧ Si
         simp only [Clauses.wf, Bool.and_eq_true] at hwf
         simp only [execFall] at h
         simpa [Clauses.bodyStart] using
-          clause_body code f ih ihF c body fall rest s s' sig base next cont hwf.1 hwf.2 hemb h
+          clause_body code fs ent f ih ihF c body fall rest s s' sig base next cont σ hwf.1 hwf.2 hemb h
     -- statements
-    intro p s s' sig base next brk cont hwf h hemb
+    intro p s s' sig base next brk cont σ hwf h hemb
     cases p with
     | skip =>
       simp only [exec, Option.some.injEq, Prod.mk.injEq] at h
@@ -391,17 +419,17 @@ theorem sim_all (code : List Instr) : ∀ (fuel : Nat), SimStmt code fuel ∧ Si
       simp only [compile] at hemb
       have ha := hemb.left
       have hb := hemb.right
-      rw [compile_length] at hb
+      rw [compile_length ent] at hb
       simp only [exec] at h
-      cases hx : exec f a s with
+      cases hx : exec fs f a s with
       | none => simp [hx] at h
       | some r =>
         obtain ⟨sg, s1⟩ := r
-        obtain ⟨n1, hn1⟩ := ih a s s1 sg base (base + a.size) brk cont hwf.1 hx ha
+        obtain ⟨n1, hn1⟩ := ih a s s1 sg base (base + a.size) brk cont σ hwf.1 hx ha
         cases sg with
         | normal =>
           simp only [hx] at h
-          obtain ⟨n2, hn2⟩ := ih b s1 s' sig (base + a.size) next brk cont hwf.2 h hb
+          obtain ⟨n2, hn2⟩ := ih b s1 s' sig (base + a.size) next brk cont σ hwf.2 h hb
           exact ⟨n1 + n2, steps_trans hn1 hn2⟩
         | brk =>
           simp only [hx, Option.some.injEq, Prod.mk.injEq] at h
@@ -415,6 +443,10 @@ theorem sim_all (code : List Instr) : ∀ (fuel : Nat), SimStmt code fuel ∧ Si
           simp only [hx, Option.some.injEq, Prod.mk.injEq] at h
           obtain ⟨rfl, rfl⟩ := h
           exact ⟨n1, hn1⟩
+        | ret v =>
+          simp only [hx, Option.some.injEq, Prod.mk.injEq] at h
+          obtain ⟨rfl, rfl⟩ := h
+          exact ⟨n1, hn1⟩
     | ite c t e =>
       simp only [Stmt.wf, Bool.and_eq_true] at hwf
       simp only [compile] at hemb
@@ -422,8 +454,8 @@ theorem sim_all (code : List Instr) : ∀ (fuel : Nat), SimStmt code fuel ∧ Si
       have ht := hemb.left.right
       have he := hemb.right
       rw [compileCond_length] at ht
-      rw [List.length_append, compileCond_length, compile_length, ← Nat.add_assoc] at he
-      obtain ⟨c1, c2⟩ := cond_sim code s c base (base + c.size) (base + c.size + t.size) hcnd
+      rw [List.length_append, compileCond_length, compile_length ent, ← Nat.add_assoc] at he
+      obtain ⟨c1, c2⟩ := cond_sim code s σ c base (base + c.size) (base + c.size + t.size) hcnd
       simp only [exec] at h
       cases hc : c.eval s with
       | none =>
@@ -435,11 +467,11 @@ theorem sim_all (code : List Instr) : ∀ (fuel : Nat), SimStmt code fuel ∧ Si
         cases v with
         | true =>
           simp only [hc] at h
-          obtain ⟨n2, hn2⟩ := ih t s s' sig (base + c.size) next brk cont hwf.1 h ht
+          obtain ⟨n2, hn2⟩ := ih t s s' sig (base + c.size) next brk cont σ hwf.1 h ht
           exact ⟨n1 + n2, steps_trans (by simpa using hn1) hn2⟩
         | false =>
           simp only [hc] at h
-          obtain ⟨n2, hn2⟩ := ih e s s' sig (base + c.size + t.size) next brk cont hwf.2 h he
+          obtain ⟨n2, hn2⟩ := ih e s s' sig (base + c.size + t.size) next brk cont σ hwf.2 h he
           exact ⟨n1 + n2, steps_trans (by simpa using hn1) hn2⟩
     | loop c body post =>
       have hwf0 := hwf
@@ -451,8 +483,8 @@ theorem sim_all (code : List Instr) : ∀ (fuel : Nat), SimStmt code fuel ∧ Si
       have hbody := hemb.left.right
       have hpost := hemb.right
       rw [compileCond_length] at hbody
-      rw [List.length_append, compileCond_length, compile_length, ← Nat.add_assoc] at hpost
-      obtain ⟨c1, c2⟩ := cond_sim code s c base (base + c.size) next hcnd
+      rw [List.length_append, compileCond_length, compile_length ent, ← Nat.add_assoc] at hpost
+      obtain ⟨c1, c2⟩ := cond_sim code s σ c base (base + c.size) next hcnd
       simp only [exec] at h
       cases hc : c.eval s with
       | none =>
@@ -468,35 +500,35 @@ theorem sim_all (code : List Instr) : ∀ (fuel : Nat), SimStmt code fuel ∧ Si
           exact ⟨n1, by simpa [target] using hn1⟩
         | true =>
           simp only [hc] at h
-          cases hx : exec f body s with
+          cases hx : exec fs f body s with
           | none => simp [hx] at h
           | some r =>
             obtain ⟨sg, s1⟩ := r
             obtain ⟨n2, hn2⟩ := ih body s s1 sg (base + c.size) (base + c.size + body.size) next
-              (base + c.size + body.size) hwb hx hbody
-            have hreach : steps code (n1 + n2) (.run base s) =
-                some (target (base + c.size + body.size) next (base + c.size + body.size) sg s1) :=
+              (base + c.size + body.size) σ hwb hx hbody
+            have hreach : steps code (n1 + n2) (.run base s σ) =
+                some (target (base + c.size + body.size) next (base + c.size + body.size) σ sg s1) :=
               steps_trans (by simpa using hn1) hn2
             -- after a normal end or a `continue` the machine is at the post statement
             have post_case : (sg = .normal ∨ sg = .cont) →
-                (match exec f post s1 with
-                  | some (.normal, s2) => exec f (.loop c body post) s2
+                (match exec fs f post s1 with
+                  | some (.normal, s2) => exec fs f (.loop c body post) s2
                   | some (.panic, s2) => some (.panic, s2)
                   | some (_, s2) => some (.panic, s2)
                   | none => none) = some (sig, s') →
-                ∃ n, steps code n (.run base s) = some (target next brk cont sig s') := by
+                ∃ n, steps code n (.run base s σ) = some (target next brk cont σ sig s') := by
               intro hsg hh
-              have hat : steps code (n1 + n2) (.run base s) = some (.run (base + c.size + body.size) s1) := by
+              have hat : steps code (n1 + n2) (.run base s σ) = some (.run (base + c.size + body.size) s1 σ) := by
                 rcases hsg with rfl | rfl <;> simpa [target] using hreach
-              cases hp : exec f post s1 with
+              cases hp : exec fs f post s1 with
               | none => simp [hp] at hh
               | some r2 =>
                 obtain ⟨sg2, s2⟩ := r2
                 obtain ⟨n3, hn3⟩ := ih post s1 s2 sg2 (base + c.size + body.size) base next
-                  (base + c.size + body.size) hwp hp hpost
+                  (base + c.size + body.size) σ hwp hp hpost
                 rcases simple_sig hsimple hp with rfl | rfl
                 · simp only [hp] at hh
-                  obtain ⟨n4, hn4⟩ := ih (.loop c body post) s2 s' sig base next brk cont hwf0 hh hemb0
+                  obtain ⟨n4, hn4⟩ := ih (.loop c body post) s2 s' sig base next brk cont σ hwf0 hh hemb0
                   exact ⟨n1 + n2 + n3 + n4, steps_trans (steps_trans hat (by simpa [target] using hn3)) hn4⟩
                 · simp only [hp, Option.some.injEq, Prod.mk.injEq] at hh
                   obtain ⟨rfl, rfl⟩ := hh
@@ -510,6 +542,10 @@ theorem sim_all (code : List Instr) : ∀ (fuel : Nat), SimStmt code fuel ∧ Si
               simp only [hx, Option.some.injEq, Prod.mk.injEq] at h
               obtain ⟨rfl, rfl⟩ := h
               exact ⟨n1 + n2, by simpa [target] using hreach⟩
+            | ret v =>
+              simp only [hx, Option.some.injEq, Prod.mk.injEq] at h
+              obtain ⟨rfl, rfl⟩ := h
+              exact ⟨n1 + n2, by simpa [target] using hreach⟩
             | normal =>
               simp only [hx] at h
               exact post_case (Or.inl rfl) h
@@ -520,11 +556,11 @@ theorem sim_all (code : List Instr) : ∀ (fuel : Nat), SimStmt code fuel ∧ Si
       simp only [Stmt.wf] at hwf
       simp only [compile] at hemb
       simp only [exec] at h
-      cases hx : execClauses f cs s with
+      cases hx : execClauses fs f cs s with
       | none => simp [hx] at h
       | some r =>
         obtain ⟨sg, s1⟩ := r
-        obtain ⟨n1, hn1⟩ := ihC cs s s1 sg base next cont hwf hx hemb
+        obtain ⟨n1, hn1⟩ := ihC cs s s1 sg base next cont σ hwf hx hemb
         cases sg with
         | brk =>
           simp only [hx, Option.some.injEq, Prod.mk.injEq] at h
@@ -542,12 +578,143 @@ theorem sim_all (code : List Instr) : ∀ (fuel : Nat), SimStmt code fuel ∧ Si
           simp only [hx, Option.some.injEq, Prod.mk.injEq] at h
           obtain ⟨rfl, rfl⟩ := h
           exact ⟨n1, by simpa [target] using hn1⟩
+        | ret v =>
+          simp only [hx, Option.some.injEq, Prod.mk.injEq] at h
+          obtain ⟨rfl, rfl⟩ := h
+          exact ⟨n1, by simpa [target] using hn1⟩
+    | ret e =>
+      have hc := Embeds.head (by simpa [compile] using hemb)
+      simp only [exec] at h
+      cases he : e.eval s with
+      | none =>
+        simp only [he, Option.some.injEq, Prod.mk.injEq] at h
+        obtain ⟨rfl, rfl⟩ := h
+        exact ⟨1, by simp [steps, step, hc, he, target]⟩
+      | some v =>
+        simp only [he, Option.some.injEq, Prod.mk.injEq] at h
+        obtain ⟨rfl, rfl⟩ := h
+        exact ⟨1, by simp [steps, step, hc, he, target]⟩
+    | call x g args =>
+      have hc := Embeds.head (by simpa [compile] using hemb)
+      simp only [exec] at h
+      cases ha : evalArgs s args with
+      | none =>
+        simp only [ha, Option.some.injEq, Prod.mk.injEq] at h
+        obtain ⟨rfl, rfl⟩ := h
+        exact ⟨1, by simp [steps, step, hc, ha, target]⟩
+      | some vals =>
+        simp only [ha] at h
+        cases hl : lookupFn fs g with
+        | none => simp [hl] at h
+        | some body =>
+          simp only [hl] at h
+          have hembF := hfe g body hl
+          unfold compileFn at hembF
+          have hb := hembF.left
+          have hret := Embeds.head hembF.right
+          rw [compile_length ent] at hret
+          have h0 : steps code 1 (.run base s σ) =
+              some (.run (ent g) (calleeSt s vals) (⟨next, s.vars, x⟩ :: σ)) := by
+            simp [steps, step, hc, ha]
+          cases hx : exec fs f body (calleeSt s vals) with
+          | none => rw [hx, callResult_none] at h; exact absurd h (by simp)
+          | some r =>
+            obtain ⟨sg, s1⟩ := r
+            obtain ⟨n1, hn1⟩ := ih body (calleeSt s vals) s1 sg (ent g) (ent g + body.size) (ent g + body.size)
+              (ent g + body.size) (⟨next, s.vars, x⟩ :: σ) (hfw g body hl) hx hb
+            -- a body that falls off its end reaches the trailing `return 0`
+            have fell : target (ent g + body.size) (ent g + body.size) (ent g + body.size)
+                  (⟨next, s.vars, x⟩ :: σ) sg s1 = .run (ent g + body.size) s1 (⟨next, s.vars, x⟩ :: σ) →
+                steps code (1 + n1 + 1) (.run base s σ) =
+                  some (.run next { vars := (s.set x 0).vars, out := s1.out } σ) := by
+              intro ht
+              rw [ht] at hn1
+              refine steps_trans (steps_trans h0 hn1) ?_
+              simp [steps, step, hret, Expr.eval, doReturn, St.set]
+            cases sg with
+            | ret v =>
+              rw [hx, callResult_ret] at h
+              simp only [Option.some.injEq, Prod.mk.injEq] at h
+              obtain ⟨rfl, rfl⟩ := h
+              exact ⟨1 + n1, steps_trans h0 (by simpa [target, doReturn, St.set] using hn1)⟩
+            | panic =>
+              rw [hx, callResult_panic] at h
+              simp only [Option.some.injEq, Prod.mk.injEq] at h
+              obtain ⟨rfl, rfl⟩ := h
+              exact ⟨1 + n1, steps_trans h0 (by simpa [target] using hn1)⟩
+            | normal =>
+              rw [hx, callResult_normal] at h
+              simp only [Option.some.injEq, Prod.mk.injEq] at h
+              obtain ⟨rfl, rfl⟩ := h
+              exact ⟨1 + n1 + 1, by simpa [target] using fell rfl⟩
+            | brk =>
+              rw [hx, callResult_brk] at h
+              simp only [Option.some.injEq, Prod.mk.injEq] at h
+              obtain ⟨rfl, rfl⟩ := h
+              exact ⟨1 + n1 + 1, by simpa [target] using fell rfl⟩
+            | cont =>
+              rw [hx, callResult_cont] at h
+              simp only [Option.some.injEq, Prod.mk.injEq] at h
+              obtain ⟨rfl, rfl⟩ := h
+              exact ⟨1 + n1 + 1, by simpa [target] using fell rfl⟩
 
 /-- statements (the form used by the property theorems) -/
-theorem sim (code : List Instr) (fuel : Nat) (p : Stmt) (s s' : St) (sig : Sig) (base next brk cont : Nat)
-    (hwf : p.wf = true) (h : exec fuel p s = some (sig, s'))
-    (hemb : Embeds code (compile p base next brk cont) base) :
-    ∃ n, steps code n (.run base s) = some (target next brk cont sig s') :=
-  (sim_all code fuel).1 p s s' sig base next brk cont hwf h hemb
+theorem sim (code : List Instr) (fs : Funs) (ent : Nat → Nat) (hfe : FunsEmbed code fs ent) (hfw : Funs.wf fs)
+    (fuel : Nat) (p : Stmt) (s s' : St) (sig : Sig) (base next brk cont : Nat) (σ : List Frame)
+    (hwf : p.wf = true) (h : exec fs fuel p s = some (sig, s'))
+    (hemb : Embeds code (compile ent p base next brk cont) base) :
+    ∃ n, steps code n (.run base s σ) = some (target next brk cont σ sig s') :=
+  (sim_all code fs ent hfe hfw fuel).1 p s s' sig base next brk cont σ hwf h hemb
+
+theorem compileFn_length (ent : Nat → Nat) (b : Stmt) (base : Nat) :
+    (compileFn ent b base).length = b.size + 1 := by
+  simp [compileFn, compile_length ent]
+
+/-- layout: the graph of function `g` sits at its offset inside the block of function graphs -/
+theorem compileFuns_embeds (ent : Nat → Nat) : ∀ (fs : Funs) (base g : Nat) (body : Stmt),
+    lookupFn fs g = some body →
+    ∀ i, i < (compileFn ent body (base + offset fs g)).length →
+      (compileFuns ent fs base)[offset fs g + i]? = (compileFn ent body (base + offset fs g))[i]? := by
+  intro fs
+  induction fs with
+  | nil => intro base g body h; simp [lookupFn] at h
+  | cons b bs ih =>
+    intro base g body h i hi
+    cases g with
+    | zero =>
+      simp only [lookupFn, Option.some.injEq] at h
+      subst h
+      simp only [offset, Nat.add_zero, Nat.zero_add, compileFuns] at hi ⊢
+      rw [List.getElem?_append_left hi]
+    | succ g =>
+      simp only [lookupFn] at h
+      simp only [offset, compileFuns] at hi ⊢
+      have hlen := compileFn_length ent b base
+      rw [List.getElem?_append_right (by omega)]
+      have := ih (base + b.size + 1) g body h i (by
+        have e : base + b.size + 1 + offset bs g = base + (b.size + 1 + offset bs g) := by omega
+        rw [e]; exact hi)
+      have e1 : b.size + 1 + offset bs g + i - (compileFn ent b base).length = offset bs g + i := by omega
+      have e2 : base + b.size + 1 + offset bs g = base + (b.size + 1 + offset bs g) := by omega
+      rw [e1, this, e2]
+
+/-- the compiled program contains main at 0 and every declared function at its entry -/
+theorem compileProg_main (fs : Funs) (main : Stmt) :
+    Embeds (compileProg fs main) (compileFn (entryOf main fs) main 0) 0 := by
+  intro i hi
+  simp only [compileProg, Nat.zero_add]
+  rw [List.getElem?_append_left hi]
+
+theorem compileProg_funs (fs : Funs) (main : Stmt) :
+    FunsEmbed (compileProg fs main) fs (entryOf main fs) := by
+  intro g body h i hi
+  have hlen := compileFn_length (entryOf main fs) main 0
+  simp only [compileProg, entryOf] at hi ⊢
+  rw [List.getElem?_append_right (by omega)]
+  have := compileFuns_embeds (entryOf main fs) fs (main.size + 1) g body h i hi
+  have e : main.size + 1 + offset fs g + i - (compileFn (entryOf main fs) main 0).length = offset fs g + i := by
+    omega
+  rw [e]
+  exact this
 
 end YaegiVerif.Core
